@@ -955,21 +955,21 @@ func registerMisc() {
 	}
 	intrinsics["math/rand.Intn"] = func(in *Interp, fr *frame, a []Value) Value {
 		n := a[0].(*Term)
-		v := in.nondet("int", n.w)
+		v := in.nondet("env_int", n.w)
 		in.assume(in.tc.And(in.tc.Le(in.constLike(n, 0), v, true), in.tc.Lt(v, n, true)))
 		return v
 	}
-	intrinsics["math/rand.Uint32"] = func(in *Interp, fr *frame, a []Value) Value { return in.nondet("u32", 32) }
-	intrinsics["math/rand.Uint64"] = func(in *Interp, fr *frame, a []Value) Value { return in.nondet("u64", 64) }
+	intrinsics["math/rand.Uint32"] = func(in *Interp, fr *frame, a []Value) Value { return in.nondet("env_u32", 32) }
+	intrinsics["math/rand.Uint64"] = func(in *Interp, fr *frame, a []Value) Value { return in.nondet("env_u64", 64) }
 	intrinsics["math/rand.Int63"] = func(in *Interp, fr *frame, a []Value) Value {
-		v := in.nondet("i64", 64)
+		v := in.nondet("env_i64", 64)
 		in.assume(in.tc.Le(in.tc.BV(64, 0), v, true))
 		return v
 	}
 	intrinsics["crypto/rand.Read"] = func(in *Interp, fr *frame, a []Value) Value {
 		s := a[0].(SliceV)
 		for i := 0; i < s.n; i++ {
-			s.a[s.off+i] = in.nondet("u8", 8)
+			s.a[s.off+i] = in.nondet("env_u8", 8)
 		}
 		return Tuple{in.lenTerm(s.n), Iface{}}
 	}
@@ -1389,8 +1389,6 @@ func (in *Interp) nativeMethod(fr *frame, name string, args []Value) Value {
 	in.unsupported("native method %s on nil", name)
 	return nil
 }
-
-
 
 func (in *Interp) hasMethod(t types.Type, name string) bool {
 	ms := in.prog.MethodSets.MethodSet(t)
